@@ -177,4 +177,66 @@ def utf16le : List Char → List Nat
   | [] => []
   | c :: r => utf16Char c ++ utf16le r
 
+/-! ## key derivation (hash abstract) -/
+
+/-- `createUInt32LEBuffer(i, 4)` -/
+def le32b (i : Nat) : List Nat := [i % 256, i / 256 % 256, i / 65536 % 256, i / 16777216 % 256]
+
+/-- the `for i := 0; i < count; i++ { key = hashing(alg, createUInt32LEBuffer(i, 4), key) }` loop -/
+def spin (H : List Nat → List Nat) : Nat → Nat → List Nat → List Nat
+  | 0, _, key => key
+  | n + 1, i, key => spin H n (i + 1) (H (le32b i ++ key))
+
+/-- `hFinal` of `standardConvertPasswdToKey`: H(salt ‖ pw16), `iterCount` rounds, H(key ‖ le32 0) -/
+def standardHFinal (H : List Nat → List Nat) (salt pw16 : List Nat) : List Nat :=
+  H (spin H iterCount 0 (H (salt ++ pw16)) ++ le32b 0)
+
+/-- `append(standardXORBytes(hFinal, buf[:cbHash]), buf[cbHash:]...)` for `buf = bytes.Repeat({b}, 64)`,
+`cbHash = sha1.Size`, on a digest of `cbHash` bytes -/
+def xorPad (h : List Nat) (b : Nat) : List Nat := h.map (fun x => Nat.xor x b) ++ List.replicate (64 - 20) b
+
+/-- `standardConvertPasswdToKey` (`none` = ErrWorkbookFileFormat: more key bytes than two digests) -/
+def standardKey (H : List Nat → List Nat) (salt pw16 : List Nat) (keyBits : Nat) : Option (List Nat) :=
+  let hFinal := standardHFinal H salt pw16
+  let x3 := H (xorPad hFinal 0x36) ++ H (xorPad hFinal 0x5c)
+  if keyBits / 8 > x3.length then none else some (x3.take (keyBits / 8))
+
+/-- `convertPasswdToKey` (agile): H(salt ‖ pw16), `spinCount` rounds, H(key ‖ blockKey), then cut to
+`keyBits/8` bytes or, when shorter, extended by `0x36` zero bytes (as the code does) -/
+def agileKey (H : List Nat → List Nat) (salt pw16 blockKey : List Nat) (spinCount keyBits : Nat) : List Nat :=
+  let key := H (spin H spinCount 0 (H (salt ++ pw16)) ++ blockKey)
+  if key.length < keyBits / 8 then key ++ List.replicate 0x36 0
+  else if key.length > keyBits / 8 then key.take (keyBits / 8)
+  else key
+
+/-- [MS-OFFCRYPTO] 2.3.4.7 / 2.3.4.11 as a composition: H₀ = H(salt ‖ pw), Hₙ = H(le32(n−1) ‖ Hₙ₋₁) -/
+def specIterate (H : List Nat → List Nat) (count : Nat) (h0 : List Nat) : List Nat :=
+  (List.range count).foldl (fun k i => H (le32b i ++ k)) h0
+
+/-! ## OpenReader: which failures map to which error, and when content is returned -/
+
+inductive OpenErr where
+  | fileFormat   -- ErrWorkbookFileFormat
+  | password     -- ErrWorkbookPassword
+  | zipErr       -- the error of zip.NewReader
+  | later        -- ReadZipReader / calcChain / sheet map / styles / theme
+deriving Repr, DecidableEq
+
+structure OpenIn where
+  hasOle : Bool     -- bytes.Contains(b, oleIdentifier)
+  decOk : Bool      -- Decrypt returned no error
+  zipOk : Bool      -- zip.NewReader accepts the (decrypted) bytes
+  pwGiven : Bool    -- len(options.Password) > 0
+  readOk : Bool     -- ReadZipReader succeeded
+  partsOk : Bool    -- calcChain, sheet map, styles, theme decoded
+deriving Repr, DecidableEq
+
+/-- (a *File is returned, error) -/
+def openReader (i : OpenIn) : Bool × Option OpenErr :=
+  if i.hasOle ∧ ¬ i.decOk then (false, some .fileFormat)
+  else if ¬ i.zipOk then (false, some (if i.pwGiven then .password else .zipErr))
+  else if ¬ i.readOk then (false, some .later)
+  else if ¬ i.partsOk then (true, some .later)
+  else (true, none)
+
 end XlModel.Crypt
